@@ -103,14 +103,10 @@ Qed.
 Lemma ins_row_fail_rows : forall k c v c', ins_row k c v = (c', false) -> i_rows c' = i_rows c.
 Proof.
   intros k c [a0 b] c' H. unfold ins_row in H.
-  destruct (k =? 2); [destruct a0 as [x|]; [destruct (x <? 0)|]|];
-    cbn in H;
-    repeat match type of H with
-           | (if ?e then _ else _) = _ => destruct e
-           | match ?e with Some _ => _ | None => _ end = _ => destruct e
-           | (_, true) = (_, false) => discriminate H
-           | (_, false) = (_, false) => inversion H; subst; cbn; reflexivity
-           end.
+  repeat match type of H with
+         | context [if ?e then _ else _] => destruct e
+         | context [match ?e with Some _ => _ | None => _ end] => destruct e
+         end; cbn in H; inversion H; subst; reflexivity.
 Qed.
 
 Lemma do_insert_one_fail_rows : forall tb n v,
